@@ -126,6 +126,16 @@ def _case(seed: int) -> Dict[str, Any]:
                 os.environ.pop("CRITICAL_PATH_STRICT_NEGATIVE_WEIGHT_CHECKS", None)
             else:
                 os.environ["CRITICAL_PATH_STRICT_NEGATIVE_WEIGHT_CHECKS"] = old
+    if seed >= 0 and seed % 5 == 4:  # a nanosecond-resolution capture (instants scaled by 1/8) analysed, saved and restored with HTA_DISABLE_NS_ROUNDING=1
+        old = os.environ.get("HTA_DISABLE_NS_ROUNDING")
+        os.environ["HTA_DISABLE_NS_ROUNDING"] = "1"
+        try:
+            return _case_body(seed)
+        finally:
+            if old is None:
+                os.environ.pop("HTA_DISABLE_NS_ROUNDING", None)
+            else:
+                os.environ["HTA_DISABLE_NS_ROUNDING"] = old
     return _case_body(seed)
 
 
@@ -143,7 +153,16 @@ def _case_body(seed: int) -> Dict[str, Any]:
             evs = _overrun_trace()
         elif seed < 0:
             evs = _frame_trace(-seed)
+        ns = seed >= 0 and seed % 5 == 4
+        if ns:
+            b0 = min(e["ts"] for e in evs if e.get("ph") == "X")
+            for e in evs:
+                if e.get("ph") == "X":
+                    e["ts"] = b0 + (e["ts"] - b0) * 0.125
+                    e["dur"] = e["dur"] * 0.125
         inp = {"seed": seed, "events": {0: evs}}
+        if ns:
+            inp["environment"] = {"HTA_DISABLE_NS_ROUNDING": "1"}
         if seed <= -100:
             inp["environment"] = {"CRITICAL_PATH_STRICT_NEGATIVE_WEIGHT_CHECKS": "1"}
         with rt.trace_dir({0: evs}) as d:
